@@ -101,6 +101,9 @@ def _judge_glob(c, o):
         sig = "C21 regex-metacharacter-unescaped (panic)" if c["panic"] else "C21 unexpected-panic"
         return [(sig, o["panic"][:200])]
     got = set(o["res"])
+    if "primed" in o and not o["panic"] and set(o["primed"]) != got:
+        # Glob.tla: the result is a function of the tree and the call alone (HistoryFree)
+        out.append(("C21 result-depends-on-earlier-glob-call-in-the-package", sorted(set(o["primed"]) ^ got)[0]))
     for p in sorted(must - got):
         cls = diffs.get((p, "missing"))
         if cls:
